@@ -18,13 +18,14 @@ import (
 )
 
 type burstResult struct {
-	n     int
-	fails []lib.Failure
-	err   error
+	passed []int // per round: how many of the concurrent requests were passed on
+	n      int
+	fails  []lib.Failure
+	err    error
 }
 
 func limiterBurst(rounds int) (res burstResult) {
-	const max, burst = 3, 24
+	const max, burst = 3, 64
 	root, cleanup, err := lib.ScratchDir("c07-limiter")
 	if err != nil {
 		res.err = err
@@ -82,6 +83,7 @@ func limiterBurst(rounds int) (res burstResult) {
 		close(gate)
 		wg.Wait()
 		res.n += 2 * burst
+		res.passed = append(res.passed, passed)
 		if seqPassed != max {
 			res.fails = append(res.fails, lib.Failure{Case: fmt.Sprintf("limiter-burst-%d", r), Key: "limiter-burst:sequential-quota",
 				What:  fmt.Sprintf("round %d: %d requests of one address sent one after the other right after an interval ended (max %d, reqlimitlog set): %d passed on", r, burst, max, seqPassed),
